@@ -50,6 +50,56 @@ pub async fn history(ctx: &mut Ctx, root: &std::path::Path, tag: &str, nops: usi
     let _ = std::fs::remove_dir_all(&w.dir);
 }
 
+/// Directed layout for the scan hand-over between segments: a MIXED transaction [a, b] (stream b is
+/// ahead of stream a by a few versions) is the last thing stream a has in a segment, and stream a
+/// continues in the next segment with a multi-event transaction [a, a, a].  Scans of a and b from
+/// every start position, both directions, several batch patterns, before and after reopen.
+pub async fn mixed_boundary_history(ctx: &mut Ctx, root: &std::path::Path, tag: &str) {
+    let cfg = Cfg { nb: 1, segsize: 128 * 1024, compression: false, sync_ms: 5 };
+    let mut w = World::new(ctx, root, cfg, tag);
+    let op = format!("st open nb=1 seg={} c=0", w.cfg.segsize);
+    w.hist.push(op.clone());
+    match open_db(&w.dir, &w.cfg) { Ok(db) => w.db = Some(db), Err(_) => return };
+    ctx.emit(&op, "ok");
+    let pk_idx = 0usize; let pkey = w.pkeys[pk_idx]; let pid = w.pid_of(&pkey);
+    let mk = |w: &mut World, evs: &[(&str, usize)]| -> GenTx {
+        let events = evs.iter().map(|(stream, plen)| { let idx = w.next_event_idx; w.next_event_idx += 1;
+            GenEvent { id: sierradb::id::uuid_v7_with_partition_hash(sierradb::id::uuid_to_partition_hash(pkey)), idx, stream: stream.to_string(),
+                exp: sierradb_protocol::ExpectedVersion::Any, ts: 7, name: "m".into(), meta: vec![], payload: vec![0x33; *plen] } }).collect();
+        GenTx { pkey, pk_idx, pid, exp_seq: sierradb_protocol::ExpectedVersion::Any, events }
+    };
+    let ahead = ctx.rng.range(1, 3);
+    for _ in 0..ahead { let tx = mk(&mut w, &[("mb-b", 40)]); do_append(ctx, &mut w, &tx).await; }
+    for round in 0..ctx.rng.range(1, 2) {
+        // the mixed transaction: a's last events of this segment, ending with b's event
+        let tx = if round == 0 { mk(&mut w, &[("mb-a", 60), ("mb-b", 60)]) } else { mk(&mut w, &[("mb-a", 60), ("mb-a", 30), ("mb-b", 60)]) };
+        do_append(ctx, &mut w, &tx).await;
+        // fill with another stream until the segment rolls over
+        for _ in 0..16 {
+            let tx = mk(&mut w, &[("mb-c", 14_000)]);
+            let line = do_append(ctx, &mut w, &tx).await;
+            if line.contains("offs=48") { break; }
+        }
+        // a continues in the new segment with a multi-event transaction
+        let tx = mk(&mut w, &[("mb-a", 50), ("mb-a", 50), ("mb-a", 50)]);
+        do_append(ctx, &mut w, &tx).await;
+    }
+    for pass in 0..2 {
+        for stream in ["mb-a", "mb-b", "mb-c"] {
+            let maxv = w.spec.streams.get(&(0, stream.to_string())).and_then(|x| x.1.last().map(|e| e.version)).unwrap_or(0);
+            for from in [0, 1, 2, maxv, maxv + 1] {
+                for batches in [vec![1usize], vec![2, 3], vec![50]] { scan_and_check_stream(ctx, &mut w, 0, stream, from, true, &batches).await; }
+            }
+            for from in [u64::MAX, maxv, 1] { scan_and_check_stream(ctx, &mut w, 0, stream, from, false, &[2, 3]).await; }
+        }
+        if pass == 0 && !reopen(ctx, &mut w).await { return; }
+    }
+    ctx.stat("mixed_boundary_histories");
+    ctx.nontrivial(&w.hist.join(";"));
+    if let Some(db) = w.db.take() { db.shutdown().await; }
+    let _ = std::fs::remove_dir_all(&w.dir);
+}
+
 pub fn run_store(ctx: &mut Ctx) {
     let rt = tokio::runtime::Builder::new_multi_thread().worker_threads(4).enable_all().build().unwrap();
     let root = if std::path::Path::new("/dev/shm").is_dir() { tempfile::tempdir_in("/dev/shm").unwrap() } else { tempfile::tempdir().unwrap() };
@@ -58,6 +108,7 @@ pub fn run_store(ctx: &mut Ctx) {
         let nops = ctx.rng.range(30, 110) as usize;
         rt.block_on(history(ctx, root.path(), &format!("{i}"), nops));
     }
+    for i in 0..(if ctx.thorough() { 20 } else { 3 }) { rt.block_on(mixed_boundary_history(ctx, root.path(), &format!("mb{i}"))); }
 }
 
 // ------------------------------------------------------------------ crash recovery (C05, C06)
@@ -321,7 +372,7 @@ pub fn run_crash(ctx: &mut Ctx) {
 
 // ------------------------------------------------------------------ C19: space accounting at the segment end
 pub async fn space_history(ctx: &mut Ctx, root: &std::path::Path, tag: &str) {
-    let cfg = Cfg { nb: 1, segsize: 128 * 1024, compression: ctx.rng.chance(3, 4), sync_ms: 5 };
+    let cfg = Cfg { nb: 1, segsize: 128 * 1024, compression: ctx.rng.chance(1, 2), sync_ms: 5 };
     let mut w = World::new(ctx, root, cfg, tag);
     let op = format!("st open nb=1 seg={} c={}", w.cfg.segsize, w.cfg.compression as u8);
     w.hist.push(op.clone());
@@ -354,7 +405,8 @@ pub async fn space_history(ctx: &mut Ctx, root: &std::path::Path, tag: &str) {
         let end = live_end(&w);
         let left = (w.cfg.segsize as u64 - end) as usize;
         let fixed = EVENT_HEADER_SIZE + 4 + 1; // stream "s0-0", name "n", no metadata
-        let delta = ctx.rng.below(40) as usize;
+        // delta = 0: the record ends exactly at the segment's last byte
+        let delta = if ctx.rng.chance(1, 3) { ctx.stat("space_exact_fit_single"); 0 } else { ctx.rng.below(40) as usize };
         if left > fixed + delta + 10 {
             let tx = mk(&mut w, ctx, left - fixed - delta, false);
             ctx.stat("space_boundary_appends");
@@ -388,7 +440,8 @@ pub async fn space_history(ctx: &mut Ctx, root: &std::path::Path, tag: &str) {
             let txid = uuid::Uuid::from_bytes(ctx.rng.bytes(16).try_into().unwrap());
             let txid = sierradb::id::set_uuid_flag(txid, false);
             let stored: usize = stored_sizes(&tx, txid, &w.spec, w.cfg.nb, w.cfg.compression).iter().sum::<usize>() + COMMIT_SIZE;
-            let target_left = (stored as u64).saturating_sub(1 + ctx.rng.below(16));
+            // misses the free space by 1..16 bytes, or (a third of the time) fits it EXACTLY
+            let target_left = if ctx.rng.chance(1, 3) { ctx.stat("space_exact_fit_multi"); stored as u64 } else { (stored as u64).saturating_sub(1 + ctx.rng.below(16)) };
             // fill to exactly target_left bytes free with single incompressible events
             let mut landed = false;
             for _ in 0..40 {
